@@ -199,12 +199,18 @@ where
             };
             if let Some(l) = limit_ms {
                 let took = o.wall_ns as f64 / 1e6;
-                // allowance: the iteration in flight + scheduling noise
-                if took > l + 250.0 && !matches!(o.resp, Resp::Panic(_)) {
+                // "T plus the cost of one planning iteration": every iteration begins with the deadline check followed
+                // by one sampler call, so no sampler call may happen after T (+ scheduling noise) - however long the
+                // iteration in flight then takes; calls that draw no sample (PRM queries) get a fixed allowance
+                let late = match o.last_sample_ms {
+                    Some(t) => t > l + 150.0,
+                    None => took > l + 250.0,
+                };
+                if late && !matches!(o.resp, Resp::Panic(_)) {
                     f.push(Finding {
                         property: "C06",
                         class: "deadline_overrun".into(),
-                        what: format!("{} took {took:.1} ms with a limit of {l} ms", crate::run::call_json(&o.call)),
+                        what: format!("{} took {took:.1} ms with a limit of {l} ms (last iteration began {} ms after the call)", crate::run::call_json(&o.call), o.last_sample_ms.map(|t| format!("{t:.1}")).unwrap_or("-".into())),
                         call: ci,
                     });
                 }
